@@ -3,6 +3,7 @@ import Octo.Model.Vmess
 import Octo.Model.Trojan
 import Octo.Model.Socks5
 import Octo.Props.C14
+import Octo.Model.SsUdp
 /-!
 # C07 — no input from the network can crash a task or the process
 
@@ -344,6 +345,46 @@ theorem c07_vmess_server_total (C : Crypto) (u : Bytes → Bool) (now : Nat) (sv
           · simp
         · simp_all
         · simp
+
+/-! ### Shadowsocks datagram decoders (whole datagrams, server and client side) -/
+
+/-- `AEADCipherCodec::decode` on a datagram: whatever arrives and whatever it decrypts to -/
+theorem c07_ss_udp_decode_total (C : Crypto) (ctx : Ss.Ctx) (mode : Ss.Mode) (now : Nat) (b : Bytes) :
+    SsUdp.decode C ctx mode now b ≠ .panic := by
+  have hd := c14_socks5_decode_total
+  unfold SsUdp.decode
+  simp only []
+  repeat' split
+  all_goals first
+    | (intro h; cases h; done)
+    | (exfalso; exact hd _ ‹_›)
+    | simp
+
+/-- server side `SessionCodec::decode` -/
+theorem c07_ss_udp_session_total (C : Crypto) (ctx : Ss.Ctx) (mode : Ss.Mode) (now : Nat) (b : Bytes) :
+    SsUdp.sessionDecode C ctx mode now b ≠ .panic := by
+  have h := c07_ss_udp_decode_total C ctx mode now b
+  unfold SsUdp.sessionDecode
+  split
+  · simp
+  · split <;> simp_all
+
+/-- the client's `DatagramPacketCodec::decode`, in every codec state -/
+theorem c07_ss_udp_client_total (C : Crypto) (ctx : Ss.Ctx) (cc : SsUdp.ClientCodec) (now : Nat) (b : Bytes) :
+    (SsUdp.ClientCodec.decode C ctx cc now b).1 ≠ .panic := by
+  have h := c07_ss_udp_decode_total C ctx .client now b
+  unfold SsUdp.ClientCodec.decode
+  split
+  · simp
+  · split
+    · split
+      · simp
+      · split
+        · simp
+        · simp only []
+          split <;> simp
+    · simp_all
+    · simp
 
 end Octo
 
